@@ -1627,6 +1627,32 @@ BODY_SPECS = [
     ("interface.py", "run_bldfm_single", "iface_run_single"),
     ("solver.py", "steady_state_transport_solver", "solver_steady_state"),
     ("solver.py", "ivp_solver", "solver_ivp"),
+    # session 4: the remaining functions on the paths of the properties that no table or kernel covered
+    ("fft_manager.py", "FFTManager._load_wisdom", "fftmgr_load_wisdom"),
+    ("fft_manager.py", "FFTManager._save_wisdom", "fftmgr_save_wisdom"),
+    ("fft_manager.py", "FFTManager.clear_cache", "fftmgr_clear_cache"),
+    ("fft_manager.py", "FFTManager._cleanup", "fftmgr_cleanup"),
+    ("cache.py", "GreensFunctionCache.clear", "cache_clear"),
+    ("config_parser.py", "_parse_output", "cfg_parse_output"),
+    ("utils.py", "source_area_contribution", "utils_sa_contribution"),
+    ("utils.py", "source_area_circular", "utils_sa_circular"),
+    ("utils.py", "source_area_upwind", "utils_sa_upwind"),
+    ("utils.py", "source_area_crosswind", "utils_sa_crosswind"),
+    ("utils.py", "source_area_sector", "utils_sa_sector"),
+    ("plotting/footprint.py", "extract_percentile_contour", "plot_extract_percentile_contour"),
+    ("ffm_kormann_meixner.py", "_phiM", "km_phiM"),
+    ("ffm_kormann_meixner.py", "_phiC", "km_phiC"),
+    ("ffm_kormann_meixner.py", "_psiM", "km_psiM"),
+    ("ffm_kormann_meixner.py", "_mParam", "km_mParam"),
+    ("ffm_kormann_meixner.py", "_nParam", "km_nParam"),
+    ("pbl_model.py", "psi", "pbl_psi"),
+    ("pbl_model.py", "phi", "pbl_phi"),
+    ("interface.py", "_make_cache", "iface_make_cache"),
+    ("interface.py", "run_bldfm_timeseries", "iface_run_timeseries"),
+    ("interface.py", "run_bldfm_multitower", "iface_run_multitower"),
+    ("interface.py", "_worker_single", "iface_worker_single"),
+    ("interface.py", "_worker_timeseries", "iface_worker_timeseries"),
+    ("interface.py", "run_bldfm_parallel", "iface_run_parallel"),
 ]
 
 
